@@ -1,5 +1,6 @@
 import GraphSlam.Props.C11.SE3
 import GraphSlam.Props.C09.SE2
+import GraphSlam.Props.C11.RoundingRun
 
 /-! C11 — umbrella: angle range/congruence (`PoseSE2_*_inRange`, `_congr` in `Props/C09/SE2.lean`) and unit
 quaternions (`Props/C11/SE3.lean`). -/
